@@ -9,7 +9,7 @@ import RModel.Model.Apply
     and `coercion.rs::apply_coercion` as the planner uses it on file names
     (`detect_style`, `tokenize`, `render_tokens`, `replace_case_insensitive`, `extract_prefix`).
 
-  State of the source modelled: /repo HEAD 70a22d6 (with 4d2e5a7 `dedup_renames`).
+  State of the source modelled: /repo HEAD ed3f0d7 (with 4d2e5a7 `dedup_renames`, 4ad17ef, ed3f0d7).
 
   Parameters (not modelled here, compared differentially):
    * the walker's entry list per root (`Entry` = path + what `entry.file_type()` says); scope is C09's subject.
@@ -307,7 +307,7 @@ def withFileName (p : Path) (n : Bytes) : Path := p.dropLast ++ splitPath n
 
 def planEntry (T : Tables) (o : Opts) (vmap : List VEntry) (e : Entry) : Option Ren :=
   if e.2 == .dir && !o.renameDirs then none
-  else if e.2 == .file && !o.renameFiles then none
+  else if e.2 != .dir && !o.renameFiles then none      -- since 4ad17ef: a symlink counts as a file here
   else match e.1.getLast? with
     | none => none
     | some name =>
@@ -395,10 +395,25 @@ def planMulti (T : Tables) (o : Opts) (vmap : List VEntry) (ess : List (List Ent
   | .error n => .error n
   | .ok rs => .ok (dedupRens rs)
 
-/-- `Path::canonicalize` of a planned source, as far as it matters: a symlink whose target resolves
-    (lexically: `.`/`..`/names, relative to the link's directory) to an existing node is replaced by
-    that node (followed again if it is a link, up to `fuel` times); anything else, and any failure, is
-    the path itself (`unwrap_or_else(|_| path.clone())`).  Absolute targets are outside the model. -/
+/-- `separate_root_renames` + `filter_renames_by_root_policy`, parametric in how a path is located (`loc`):
+    a rename whose source is located at one of the search roots is dropped unless `--rename-root` -/
+def filterRootsBy (loc : Path → Path) (roots : List Path) (cliRenameRoot : Bool) (rs : List Ren) : List Ren :=
+  let isRoot (r : Ren) : Bool := roots.any (fun root => loc r.path == loc root)
+  if cliRenameRoot then rs.filter isRoot ++ rs.filter (fun r => !isRoot r)
+  else rs.filter (fun r => !isRoot r)
+
+/-- since ed3f0d7 the source is located by `location_of` = canonical parent directory + the entry's own name
+    (a final symlink is not followed); the walker never descends through a symlink and the CLI hands over
+    canonical roots, so in the model every path is its own location -/
+abbrev filterRoots (roots : List Path) (cliRenameRoot : Bool) (rs : List Ren) : List Ren :=
+  filterRootsBy (fun p => p) roots cliRenameRoot rs
+
+-- before ed3f0d7 (kept for the before/after theorem of Props/C08): the source was located with
+-- `Path::canonicalize`, which follows a final symlink
+
+/-- a symlink whose target resolves (lexically: `.`/`..`/names, relative to the link's directory) to an existing
+    node is replaced by that node (followed again if it is a link, up to `fuel` times); anything else, and any
+    failure, is the path itself.  Absolute targets are outside the model. -/
 def resolveRel : Path → List Bytes → Path
   | cur, [] => cur
   | cur, c :: cs =>
@@ -416,13 +431,6 @@ def canon (t : Tree) : Nat → Path → Path
         let q := resolveRel p.dropLast (splitOn tgt 47)
         if q.isEmpty || (lookup t q).isSome then canon t fuel q else p
     | _ => p
-
-/-- `separate_root_renames` + `filter_renames_by_root_policy`: a rename whose (canonicalised) source is
-    one of the search roots is dropped unless `--rename-root` -/
-def filterRoots (cn : Path → Path) (roots : List Path) (cliRenameRoot : Bool) (rs : List Ren) : List Ren :=
-  let isRoot (r : Ren) : Bool := roots.any (fun root => cn r.path == cn root)
-  if cliRenameRoot then rs.filter isRoot ++ rs.filter (fun r => !isRoot r)
-  else rs.filter (fun r => !isRoot r)
 
 -- the walker when nothing is ignored ---------------------------------------------------------------------------
 
@@ -443,6 +451,6 @@ def planRenames (T : Tables) (o : Opts) (vmap : List VEntry) (t : Tree) (roots :
     (cliRenameRoot : Bool := false) : Except Nat (List Ren) :=
   match planMulti T o vmap (roots.map (entriesOf t)) with
   | .error n => .error n
-  | .ok rs => .ok (filterRoots (canon t 8) roots cliRenameRoot rs)
+  | .ok rs => .ok (filterRoots roots cliRenameRoot rs)
 
 end RenamePlan
